@@ -1107,7 +1107,7 @@ func runR62(c *Ctx) {
 	decide := func(cond ssa.Value) (bool, bool) {
 		cv, val := unNot(cond, true)
 		if call, ok := cv.(*ssa.Call); ok {
-			if o := calleeObj(call); o != nil && o.Name() == "isEmptyLine" {
+			if h := call.Call.StaticCallee(); h != nil && h == p.anchorEmptyLine() {
 				return val, true
 			}
 		}
